@@ -27,7 +27,7 @@ Definition gen_add_alias_model : layers -> alias -> pkid -> layers :=
 (* the three-way decision and the order insert-then-sort of the method are those of the model's add_alias *)
 Theorem refine_add_alias ls a k : gen_add_alias_model ls a k = add_alias sort a k ls.
 Proof.
-  unfold gen_add_alias_model, gen_add_alias, add_alias.
+  unfold gen_add_alias_model, gen_add_alias, add_alias, add_alias_with.
   destruct (containsS a ls); cbn [negb andb]; [|reflexivity].
   destruct (existsb (Z.eqb k) (pids a ls)); reflexivity.
 Qed.
